@@ -79,7 +79,9 @@ def injection(world, pos):
         line = grammar.blanks(r, 0, 2) + "[" + name + "]" + grammar.blanks(r, 0, 2) + grammar.token(r, "]" + C + " \t", 1, 4)
     elif kind == "empty_name":
         line = grammar.blanks(r, 0, 2) + "[]" + grammar.blanks(r, 0, 2)
-    else:
+    if kind != "missing_delim" and cls != "NONE" and r.chance(0.2):
+        line += grammar.blanks(r, 1, 2) + r.pick(C) + grammar.token(r, C + '"', 0, 6, inner_blank=True)     # a trailing comment does not heal the line
+    if kind == "missing_delim":
         key = grammar.token(r, " \t" + D + C + '"', 1, 5, first_forbid="[")
         text = grammar.token(r, D + C + '"', 1, 6, first_forbid=" \t", inner_blank=True).rstrip(" \t") or "t"
         line = key + grammar.blanks(r, 1, 2) + text
